@@ -2057,6 +2057,8 @@ impl Compiler {
         // Param properties: (name, value_reg, needs_free)
         // needs_free is true for registers allocated for default values
         let mut param_properties: Vec<(JsString, u8, bool)> = Vec::new();
+        // Index of a rest parameter (the VM collects the remaining arguments into an array there)
+        let mut rest_param = None;
 
         for (idx, param) in ctor.params.iter().enumerate() {
             let arg_reg = idx as u8;
@@ -2078,6 +2080,7 @@ impl Compiler {
                     }
                 }
                 crate::ast::Pattern::Rest(rest) => {
+                    rest_param = Some(idx);
                     if let crate::ast::Pattern::Identifier(id) = &*rest.argument {
                         param_names.push(id.name.cheap_clone());
                         let name_idx = func_compiler.builder.add_string(id.name.cheap_clone())?;
@@ -2196,7 +2199,7 @@ impl Compiler {
             name,
             param_count: ctor.params.len(),
             param_names,
-            rest_param: None,
+            rest_param,
             is_generator: false,
             is_async: false,
             is_arrow: false,
